@@ -32,7 +32,10 @@ YieldOK(kh, kg) ==
 \* milk is logged in thousand kcal: 12 months x 10^3 (the exhaustive configuration counts milk in kcal, so 12 there)
 MilkScale == IF Exact THEN I(12) ELSE I(12000)
 
-BeginS(e) == /\ Ck("YieldsAsDocumented", Exact \/ YieldOK(e.kcalHead, e.kg))
+\* every herd simulation starts from the head counts of the country's row of the stock table, except the species the scenario
+\* overrides (in thousand head; e.heads = sequence of [initial, configured])
+BeginS(e) == /\ Ck("StartsFromConfiguredHeads", Exact \/ \A i \in 1..Len(e.heads) : Eq(e.heads[i].initial, e.heads[i].configured))
+             /\ Ck("YieldsAsDocumented", Exact \/ YieldOK(e.kcalHead, e.kg))
              /\ hb' = e /\ hmon' = 0 /\ meatOffered' = Zero /\ meatDerived' = Zero /\ anyCharge' = FALSE
              /\ anyEaten' = FALSE /\ hended' = FALSE
 
